@@ -1,8 +1,116 @@
-//! std::collections with deterministic hashing for HashMap/HashSet.
+//! std::collections with deterministic hashing for HashMap, and a HashSet whose iterators notice
+//! when the set is modified underneath them (the monitor shares one between threads without a lock).
 pub use std::collections::*;
-use std::hash::{BuildHasherDefault, DefaultHasher};
+use std::cell::Cell;
+use std::hash::{BuildHasherDefault, DefaultHasher, Hash};
 
 /// SipHash with fixed keys: same iteration order in every process.
 pub type FixedState = BuildHasherDefault<DefaultHasher>;
 pub type HashMap<K, V> = std::collections::HashMap<K, V, FixedState>;
-pub type HashSet<K> = std::collections::HashSet<K, FixedState>;
+
+/// `std::collections::HashSet` subset with a modification counter. Mutating the set while an
+/// iterator of it is alive is undefined behaviour for the real type; here the iterator stops and the
+/// event is counted as `cause.hashset.modified-during-iteration`.
+pub struct HashSet<K> {
+    inner: std::collections::HashSet<K, FixedState>,
+    mods: Cell<u64>,
+}
+
+unsafe impl<K: Send> Send for HashSet<K> {}
+unsafe impl<K: Sync> Sync for HashSet<K> {}
+
+impl<K> Default for HashSet<K> {
+    fn default() -> Self {
+        HashSet {
+            inner: std::collections::HashSet::default(),
+            mods: Cell::new(0),
+        }
+    }
+}
+
+impl<K: std::fmt::Debug> std::fmt::Debug for HashSet<K> {
+    fn fmt(&self, f: &mut std::fmt::Formatter<'_>) -> std::fmt::Result {
+        self.inner.fmt(f)
+    }
+}
+
+impl<K: Eq + Hash> HashSet<K> {
+    pub fn new() -> Self {
+        HashSet::default()
+    }
+    pub fn insert(&mut self, k: K) -> bool {
+        crate::sim::point("hashset.insert");
+        self.mods.set(self.mods.get() + 1);
+        self.inner.insert(k)
+    }
+    pub fn remove<Q>(&mut self, k: &Q) -> bool
+    where
+        K: std::borrow::Borrow<Q>,
+        Q: Hash + Eq + ?Sized,
+    {
+        crate::sim::point("hashset.remove");
+        self.mods.set(self.mods.get() + 1);
+        self.inner.remove(k)
+    }
+    pub fn contains<Q>(&self, k: &Q) -> bool
+    where
+        K: std::borrow::Borrow<Q>,
+        Q: Hash + Eq + ?Sized,
+    {
+        crate::sim::point("hashset.contains");
+        self.inner.contains(k)
+    }
+    pub fn len(&self) -> usize {
+        self.inner.len()
+    }
+    pub fn is_empty(&self) -> bool {
+        crate::sim::point("hashset.is_empty");
+        self.inner.is_empty()
+    }
+    pub fn clear(&mut self) {
+        self.mods.set(self.mods.get() + 1);
+        self.inner.clear();
+    }
+    pub fn iter(&self) -> Iter<'_, K> {
+        crate::sim::point("hashset.iter");
+        // snapshot of references: stays valid only while the set is not modified
+        Iter {
+            set: self,
+            mods: self.mods.get(),
+            items: self.inner.iter().map(std::ptr::from_ref).collect(),
+            pos: 0,
+        }
+    }
+}
+
+pub struct Iter<'a, K> {
+    set: &'a HashSet<K>,
+    mods: u64,
+    items: Vec<*const K>,
+    pos: usize,
+}
+
+impl<'a, K> Iterator for Iter<'a, K> {
+    type Item = &'a K;
+    fn next(&mut self) -> Option<&'a K> {
+        if self.pos >= self.items.len() {
+            return None;
+        }
+        crate::sim::point("hashset.iter.next");
+        if self.set.mods.get() != self.mods {
+            crate::sim::count("cause.hashset.modified-during-iteration");
+            return None;
+        }
+        let p = self.items[self.pos];
+        self.pos += 1;
+        Some(unsafe { &*p })
+    }
+}
+
+impl<'a, K: Eq + Hash> IntoIterator for &'a HashSet<K> {
+    type Item = &'a K;
+    type IntoIter = Iter<'a, K>;
+    fn into_iter(self) -> Iter<'a, K> {
+        self.iter()
+    }
+}
